@@ -55,7 +55,21 @@ const DefaultBudget = 200000
 
 // Compile evaluates the Pattern production (15.10.2.2) for the given flags.
 func Compile(p *Pattern, ignoreCase, multiline bool) *Program {
-	c := &compiler{ic: ignoreCase}
+	return CompileAlt(p, ignoreCase, multiline, AltOptions{})
+}
+
+// AltOptions switch the matcher to NON-ES5 behaviours. The oracle always uses
+// the zero value; the options exist only so that known-finding signatures can
+// state "observed equals the ES5 matcher except that ..." exactly.
+type AltOptions struct {
+	DotNewlineOnly    bool // '.' excludes only \n (ES5: every LineTerminator)
+	AnchorNewlineOnly bool // multiline ^ and $ look only for \n
+	UnicodeFold       bool // ignoreCase compares by Unicode simple case folding orbits (ES5: 15.10.2.8 Canonicalize)
+}
+
+// CompileAlt is Compile with alternative-model options.
+func CompileAlt(p *Pattern, ignoreCase, multiline bool, opt AltOptions) *Program {
+	c := &compiler{ic: ignoreCase, opt: opt}
 	return &Program{Pat: p, IgnoreCase: ignoreCase, Multiline: multiline, m: c.compile(p.Root), NCap: p.NCap}
 }
 
@@ -87,7 +101,43 @@ func (pr *Program) Match(input []uint16, index int) (caps []int, ok bool, err er
 	return out, true, nil
 }
 
-type compiler struct{ ic bool }
+type compiler struct {
+	ic  bool
+	opt AltOptions
+}
+
+func (c *compiler) canon(ch uint16) uint16 {
+	if c.opt.UnicodeFold {
+		return foldMin(ch)
+	}
+	return Canonicalize(ch)
+}
+
+func (c *compiler) isLT(ch uint16) bool {
+	if c.opt.AnchorNewlineOnly {
+		return ch == 10
+	}
+	return isLineTerminator(ch)
+}
+
+// foldMin is the smallest member of the simple case folding orbit of ch (BMP only).
+func foldMin(ch uint16) uint16 {
+	if ch >= 0xD800 && ch < 0xE000 {
+		return ch
+	}
+	min := rune(ch)
+	for r := unicode.SimpleFold(rune(ch)); r != rune(ch); r = unicode.SimpleFold(r) {
+		if r < min {
+			min = r
+		}
+	}
+	if min > 0xFFFF {
+		return ch
+	}
+	return uint16(min)
+}
+
+var dotNLSet = &CharSet{Ranges: [][2]uint16{{0, 9}, {11, 0xFFFF}}}
 
 func (c *compiler) compile(n *Node) matcher {
 	switch n.Kind {
@@ -97,6 +147,9 @@ func (c *compiler) compile(n *Node) matcher {
 		return c.charSet(&CharSet{Ranges: [][2]uint16{{n.Ch, n.Ch}}})
 	case KDot:
 		// all characters except LineTerminator
+		if c.opt.DotNewlineOnly {
+			return c.charSet(dotNLSet)
+		}
 		return c.charSet(dotSet)
 	case KClass:
 		return c.charSet(n.Set)
@@ -104,7 +157,7 @@ func (c *compiler) compile(n *Node) matcher {
 		return func(m *machine, x state, k cont) (state, bool) {
 			m.tick()
 			e := x.end
-			if e == 0 || (m.multiline && isLineTerminator(m.input[e-1])) {
+			if e == 0 || (m.multiline && c.isLT(m.input[e-1])) {
 				return k(x)
 			}
 			return state{}, false
@@ -113,7 +166,7 @@ func (c *compiler) compile(n *Node) matcher {
 		return func(m *machine, x state, k cont) (state, bool) {
 			m.tick()
 			e := x.end
-			if e == len(m.input) || (m.multiline && isLineTerminator(m.input[e])) {
+			if e == len(m.input) || (m.multiline && c.isLT(m.input[e])) {
 				return k(x)
 			}
 			return state{}, false
@@ -333,16 +386,21 @@ type bitmap [1024]uint64
 func (b *bitmap) set(c uint16)      { b[c>>6] |= 1 << (c & 63) }
 func (b *bitmap) has(c uint16) bool { return b[c>>6]&(1<<(c&63)) != 0 }
 
-var canonCache = map[[2]uint16]*bitmap{}
+type canonKey struct {
+	lo, hi uint16
+	fold   bool
+}
 
-func canonRange(lo, hi uint16) *bitmap {
-	key := [2]uint16{lo, hi}
+var canonCache = map[canonKey]*bitmap{}
+
+func (c *compiler) canonRange(lo, hi uint16) *bitmap {
+	key := canonKey{lo, hi, c.opt.UnicodeFold}
 	if b, ok := canonCache[key]; ok {
 		return b
 	}
 	b := &bitmap{}
-	for c := int(lo); c <= int(hi); c++ {
-		b.set(Canonicalize(uint16(c)))
+	for ch := int(lo); ch <= int(hi); ch++ {
+		b.set(c.canon(uint16(ch)))
 	}
 	canonCache[key] = b
 	return b
@@ -370,10 +428,10 @@ func (c *compiler) charSet(set *CharSet) matcher {
 	for _, r := range set.Ranges {
 		if int(r[1])-int(r[0]) < 64 {
 			for ch := int(r[0]); ch <= int(r[1]); ch++ {
-				small = append(small, Canonicalize(uint16(ch)))
+				small = append(small, c.canon(uint16(ch)))
 			}
 		} else {
-			big = append(big, canonRange(r[0], r[1]))
+			big = append(big, c.canonRange(r[0], r[1]))
 		}
 	}
 	return func(m *machine, x state, k cont) (state, bool) {
@@ -382,7 +440,7 @@ func (c *compiler) charSet(set *CharSet) matcher {
 		if e == len(m.input) {
 			return state{}, false
 		}
-		cc := Canonicalize(m.input[e])
+		cc := c.canon(m.input[e])
 		found := false
 		for _, a := range small {
 			if a == cc {
